@@ -415,6 +415,15 @@ func (m *Manager) AllocateNAT(privateIP net.IP) (*Allocation, error) {
 	m.poolMu.Lock()
 	defer m.poolMu.Unlock()
 
+	// Re-check under the pool lock: a concurrent caller for the same subscriber may have
+	// allocated between the check above and here
+	m.allocationMu.RLock()
+	if existing, ok := m.allocations[privKey]; ok {
+		m.allocationMu.RUnlock()
+		return existing, nil
+	}
+	m.allocationMu.RUnlock()
+
 	var selectedPool *PoolEntry
 	var poolIndex int
 	for i := range m.pool {
